@@ -37,6 +37,7 @@ KV    == TrCnd(<<"k">>, "Eq", TrLeaf(<<"v">>))                         \* k = v
 KGeS  == TrCnd(<<"k", "2">>, "Ge", TrStk("AND", <<X, Y>>))              \* k2 >= x AND y
 KNoOp == TrCnd(<<"k">>, "none", TrLeaf(<<"v">>))                       \* invalid: no operator
 KNoEx == TrCnd(<<"k">>, "Eq", TrNil)                                   \* invalid: no expression
+KBadOp == TrCnd(<<"k">>, "op9", TrLeaf(<<"v">>))                       \* invalid: a built-in operator outside Eq..Ge (all three parts present)
 
 \* every combination of the per-node options a setter can actually produce
 \* (SetSymbol is ignored by LIST, SetDelimiter by everything but LIST)
